@@ -673,10 +673,12 @@ fn fe_opt(
     }
     let new_evaluator = Evaluator::new(opts.clone(), runner.clone(), optimized_helpers.clone());
 
+    let mut main_env = HashMap::new();
+    build_reflex_captures(&mut main_env, compileform.args.clone());
     let shrunk = new_evaluator.shrink_bodyform(
         allocator,
-        Rc::new(SExp::Nil(compileform.args.loc())),
-        &HashMap::new(),
+        compileform.args.clone(),
+        &main_env,
         compileform.exp.clone(),
         true,
         Some(EVAL_STACK_LIMIT),
